@@ -247,6 +247,14 @@ pub fn function_name() -> Report {
                 for j in (lo..=start).rev() { if texts[j] == Some(name) && j > lo && j >= 1 && texts[j - 1] == Some("function") { want = tok_name(j); break; } } }
             crate::witness(want.is_some() && name != "function");
             if got != want { return r("function_name", bound, cases, Some(format!("program {prog:?}, tokens every {stride} columns: resolving {name:?} from token #{start} at (line,col) {:?} gives {got:?}, expected {want:?}", pos[start]))); }
+            // the position-based entry points: the walk starts at the token looked up for the position (C04: greatest position not after it); queried on the token and one column after it
+            for dc in [0u32, 1] {
+                let (ql, qc) = (pos[start].0, pos[start].1 + dc);
+                if dc == 1 && pos.get(start + 1) == Some(&(ql, qc)) { continue; }   // that position belongs to the next token
+                cases += 1;
+                let got2 = match guarded(|| sm.get_original_function_name(ql, qc, name, &sv).map(|s| s.to_string())) { Ok(g) => g, Err(p) => return r("function_name", bound, cases, Some(format!("program {prog:?}: SourceMap::get_original_function_name({ql}, {qc}, {name:?}): {p}"))) };
+                if got2 != want { return r("function_name", bound, cases, Some(format!("program {prog:?}, tokens every {stride} columns: SourceMap::get_original_function_name({ql}, {qc}, {name:?}) gives {got2:?}, but walking back from the token looked up there (#{start} at {:?}) the first `function {name}` pair gives {want:?}", pos[start]))); }
+            }
         } }
         }
     }
